@@ -418,12 +418,14 @@ def cases(tier, seed=0):
     out.append(Threshold(fn="general_ked", nb=2, npts=1, alpha=0))
     out.append(Threshold(fn="general_ked", nb=2, npts=1, alpha=1))
     # end to end on the real evaluation code
-    ee = dict(ls=[0, 1], types="cc", Ks=[1, 1], Ms=[1, 1])
+    # each in a worker interpreter of its own (heavy=True): after other cases in the same interpreter the solver's
+    # search has been seen to take a different course and time out on obligations it decides in milliseconds alone
+    ee = dict(ls=[0, 1], types="cc", Ks=[1, 1], Ms=[1, 1], heavy=True)
     out.append(EndToEnd(fn="gradient", **ee))
     out.append(EndToEnd(fn="laplacian", deriv_type="direct", **ee))
-    out.append(EndToEnd(fn="deriv_density", orders=[1, 0, 1], **ee))
+    out.append(EndToEnd(fn="deriv_density", orders=[1, 0, 1], ls=[0, 1], types="cc", Ks=[1, 1], Ms=[1, 1], exps=[["3/2"], ["7/10"]], heavy=True))
     # mixed coordinate types with a two-column shell (the assembly path of the evaluation layer matters here)
-    out.append(EndToEnd(fn="gradient", ls=[1, 0], types="sc", Ks=[1, 1], Ms=[2, 1], exps=[["7/10"], ["3/2"]]))
+    out.append(EndToEnd(fn="gradient", ls=[1, 0], types="sc", Ks=[1, 1], Ms=[2, 1], exps=[["7/10"], ["3/2"]], heavy=True))
     if tier == "thorough":
         out.append(EndToEnd(fn="hessian", deriv_type="direct", ls=[1, 0], types="cc", Ks=[1, 1], Ms=[1, 1], exps=[["7/10"], ["3/2"]]))
         out.append(EndToEnd(fn="deriv_density", orders=[3, 1, 0], ls=[1, 0], types="sc", Ks=[1, 1], Ms=[1, 2], exps=[["7/10"], ["3/2"]]))
